@@ -40,12 +40,20 @@ func doDaoSeq(o *hx.Out, k int, r *prng.R) {
 		return ids[h]
 	}
 	var nameable []util.Uint256
+	pureVictim := map[util.Uint256]bool{} // hashes that are never stored as a transaction or block
 	for i := r.Range(1, 3); i > 0; i-- {
 		var h util.Uint256
 		copy(h[:], r.Bytes(32))
 		nameable = append(nameable, h)
+		pureVictim[h] = true
 	}
 	var ops []string
+	// the harness's own record of what it put on chain: victim hash -> (index, signers) of the transactions naming it
+	type naming struct {
+		index   uint32
+		signers []util.Uint160
+	}
+	history := map[util.Uint256][]naming{}
 	if r.Chance(1, 2) {
 		b := &block.Block{}
 		b.Index = uint32(r.Range(1, 1000))
@@ -69,7 +77,7 @@ func doDaoSeq(o *hx.Out, k int, r *prng.R) {
 			tx.Signers = append(tx.Signers, transaction.Signer{Account: accs[(perm+j)%nacc]})
 		}
 		tx.Scripts = make([]transaction.Witness, ns)
-		nc := r.Intn(3)
+		nc := r.Intn(4)
 		seen := map[util.Uint256]bool{}
 		for j := 0; j < nc; j++ {
 			h := nameable[r.Intn(len(nameable))]
@@ -82,6 +90,15 @@ func doDaoSeq(o *hx.Out, k int, r *prng.R) {
 		if err := d.StoreAsTransaction(tx, index, nil); err != nil {
 			panic(err)
 		}
+		for _, a := range tx.GetAttributes(transaction.ConflictsT) {
+			var sg []util.Uint160
+			for _, x := range tx.Signers {
+				sg = append(sg, x.Account)
+			}
+			h := a.Value.(*transaction.Conflicts).Hash
+			history[h] = append(history[h], naming{index, sg})
+		}
+		o.Count(fmt.Sprintf("daoseq:conflicts-per-tx=%d", len(tx.GetAttributes(transaction.ConflictsT))))
 		var sb strings.Builder
 		fmt.Fprintf(&sb, "T %d %d %d", id(tx.Hash()), index, len(tx.Signers))
 		for _, s := range tx.Signers {
@@ -142,6 +159,27 @@ func doDaoSeq(o *hx.Out, k int, r *prng.R) {
 				v = "other"
 			}
 			o.Count("daoseq:query:" + v)
+			// the statement's clause on the real store: a hash is refused iff an on-chain transaction inside the
+			// traceability window names it and shares a signer with the asking transaction
+			if pureVictim[h] && len(sg) > 0 && height >= top {
+				named := false
+				for _, nm := range history[h] {
+					if nm.index <= height && nm.index+mtb > height {
+						for _, a := range nm.signers {
+							for _, b := range sg {
+								named = named || a == b.Account
+							}
+						}
+					}
+				}
+				if named && v != "conflicts" {
+					o.Fail("dao-misses-conflict-of-signer", k, "hash %d is named by a traceable stored transaction sharing a signer with the query (height %d, mtb %d), HasTransaction says %s; ops: %s", id(h), height, mtb, v, strings.Join(ops, " | "))
+				}
+				if !named && v == "conflicts" {
+					o.Fail("dao-reports-conflict-without-signer", k, "hash %d: HasTransaction says conflicts at height %d (mtb %d) although no traceable stored transaction naming it shares a signer; ops: %s", id(h), height, mtb, strings.Join(ops, " | "))
+				}
+				o.Count(fmt.Sprintf("daoseq:oracle:named=%v", named))
+			}
 			qs = append(qs, sb.String())
 			obs = append(obs, v)
 		}
